@@ -181,7 +181,14 @@ Definition step (st : jstate) (line : str) : option jstate :=
       | _ :: _ =>
           match cont_text (pk p) (pq p) body line with
           | None => None
-          | Some None => Some (mkJ (j_items st) (body :: j_cmts st) (j_pend st) true)
+          | Some None =>
+              (* a comment line between continuation lines; `!& ` continues the previous comment *)
+              if prefixb cmt_marker body && j_merge st then
+                match j_cmts st with
+                | c0 :: r => Some (mkJ (j_items st) ((c0 ++ skipn 3 body) :: r) (j_pend st) true)
+                | [] => None
+                end
+              else Some (mkJ (j_items st) (body :: j_cmts st) (j_pend st) true)
           | Some (Some t) => finish st (pk p) (pacc p) (pq p) t
           end
       end
@@ -267,6 +274,17 @@ Definition prop_on (l : str) (out : list str) : N :=
   match join [l] with
   | None => 2%N
   | Some r => match join out with
+              | Some r' => if jequiv r' r then 0%N else 1%N
+              | None => 1%N
+              end
+  end.
+
+(* the same for a multi-line input (input lines may themselves be continued):
+   join (output lines) ~ join (input lines) *)
+Definition prop_on_lines (ins outs : list str) : N :=
+  match join ins with
+  | None => 2%N
+  | Some r => match join outs with
               | Some r' => if jequiv r' r then 0%N else 1%N
               | None => 1%N
               end
